@@ -5,7 +5,7 @@
 (* Z in 1..p-1 and the second in scalings {1, z1, other}, and with the second operand also given *)
 (* as an unreduced negation (Y - p): Denote(JAdd) = GAdd, Denote(JDbl) = 2P, JEq = equality of   *)
 (* denoted points, JScale canonical, NAF digits reproduce k, NAF multiplication = k-fold sum.    *)
-EXTENDS Jacobi, TLC
+EXTENDS Jacobi, Affine, TLC
 CONSTANTS Primes, MaxK, MaxAB
 VARIABLES stage, c, p1, p2
 vars == <<stage, c, p1, p2>>
@@ -58,6 +58,15 @@ MulAddRefines == S /\ OddOrder /\ OddOrder2 /\ (\A j, l \in 0..MaxAB : NoY0(GAdd
   \A a, b \in 0..MaxAB : \A ord \in {0, OrderOfP1 * (IF GMulDA(c, OrderOfP1, p2) = GInf THEN 1 ELSE 0)} :
      LET r == JMulAdd(c, Rep(p1, 2 % c.p), a, Rep(p2, 3 % c.p), b, ord)
      IN  (IF JIsInf(c, r) THEN GInf ELSE Denote(c, r)) = GAdd(c, GMulDA(c, a, p1), GMulDA(c, b, p2))
+(* ---- the legacy affine class (Affine.tla) -------------------------------------------------- *)
+AffAddRefines == S =>
+  /\ (NoY0(GAdd(c, p1, p2)) => AAdd(c, p1, p2) = GAdd(c, p1, p2))
+  /\ (NoY0(GAdd(c, p1, p1)) => ADbl(c, p1) = GAdd(c, p1, p1))
+  /\ AAdd(c, p1, GInf) = p1 /\ AAdd(c, GInf, p2) = p2
+  /\ AAdd(c, p1, ANeg(c, p1)) = GInf
+AffMulRefines == S /\ OddOrder =>
+  \A k \in (0 - MaxK)..MaxK : \A ord \in {0, OrderOfP1} :
+     AMul(c, p1, k, ord) = GMul(c, k, p1)
 (* the order of p1 (bounded search), and the table path for every k in [0, 2 * order + 2] and some negative / large k *)
 MulTableRefines == S /\ OddOrder =>
   LET n == OrderOfP1 IN
